@@ -133,6 +133,23 @@ where
     }
 }
 
+
+/// The crate's sharded pipeline (MSP with p-mer type P, optional generated permutation) as one call:
+/// used by C06 as the "sharded" pipeline variant.
+pub fn msp_graph<K: Kmer + Send + Sync, P: Kmer>(
+    reads: &[model::Read],
+    stranded: bool,
+    perm_seed: Option<u64>,
+    min: usize,
+    container: u8,
+) -> DebruijnGraph<K, u16> {
+    let table = perm_table(P::k(), perm_seed);
+    let cname = container_name(container, K::k(), P::k());
+    let f: fn(u16, &u16) -> u16 = |a, b| a.saturating_add(*b);
+    let spec = SimpleCompress::new(f);
+    sharded_dispatch::<K, P, u16, CountFilter, _>(cname, reads, stranded, table.as_deref(), &|| CountFilter::new(min), &spec).graph
+}
+
 fn compare<K: Kmer + Send + Sync, D: Debug + Clone + PartialEq, PK: PayKind>(
     sh: &Sharded<K, D>,
     dr: &DebruijnGraph<K, D>,
